@@ -3,6 +3,7 @@ package props
 // C12 - NewMap builds exactly the requested projection and leaves the source unchanged.
 
 import (
+	"bytes"
 	"reflect"
 	"sort"
 	"strings"
@@ -298,6 +299,23 @@ func checkC12(c CaseC12, info *Info) *Failure {
 		}
 	} else {
 		info.Class("overlapping new paths (receiver clause only)")
+	}
+	// the JSON wrapper on a document whose top level is a list: NewMapJson puts it under "object", and so must the wrapper
+	if jb, jerr := mxj.Map(copyMap(c.Map)).Json(); jerr == nil && c.FieldSep == "" {
+		listDoc := append(append(append([]byte("["), jb...), ','), append(append([]byte(nil), jb...), ']')...)
+		if lm, lerr := mxj.NewMapJson(listDoc); lerr == nil {
+			for _, lp := range [][]string{{"object:all"}, {"object[1]:second", "object:all"}, {"*:any"}} {
+				wantM, werr := lm.NewMap(lp...)
+				var wantJ []byte
+				if werr == nil {
+					wantJ, _ = wantM.Json()
+				}
+				gotJ, gerr := j2x.JsonNewJson(listDoc, lp...)
+				if (gerr == nil) != (werr == nil) || (gerr == nil && !bytes.Equal(stripWS(gotJ), stripWS(wantJ))) {
+					return failf("wrapper-mismatch", "j2x.JsonNewJson(%s, %q) = %s (%v); NewMapJson + NewMap gives %s (%v)", listDoc, lp, gotJ, gerr, wantJ, werr)
+				}
+			}
+		}
 	}
 	info.ClassIf(strings.Contains(strings.Join(pairs, "|"), " "), "keys with leading/trailing blanks")
 	info.ClassIf(nonEmpty >= 2, ">=2 pairs with non-empty results")
